@@ -809,8 +809,11 @@ class AnimalSpecies:
                 # If feed is also not enough, feed as much as possible
                 feed_input.kcals = 0
                 NE_provided = NE_from_grass + NE_from_feed
-                self.population_fed = round(
-                    (NE_provided / self.NE_balance.kcals) * self.current_population
+                self.population_fed = min(
+                    round(
+                        (NE_provided / self.NE_balance.kcals) * self.current_population
+                    ),
+                    self.current_population,
                 )
                 self.NE_balance.kcals -= NE_provided
 
